@@ -439,5 +439,6 @@ pub(crate) fn frame_at_index(
 		return None;
 	}
 	let start = slice.map(|(start, _)| start).unwrap_or_default();
-	Some(frames[index + start])
+	// a slice may extend past the audio data; frames outside it do not exist
+	frames.get(index + start).copied()
 }
